@@ -180,6 +180,11 @@ class ModRef:
         return f"<module {self.name}>"
 
 
+# the text constants of the standard module ``string`` are concrete values
+_STRING_CONSTANTS = ("ascii_letters", "ascii_lowercase", "ascii_uppercase", "digits", "hexdigits", "octdigits", "punctuation",
+                     "whitespace", "printable")
+
+
 class Ext:
     """A name the analysis has no source for (sympy, itertools, ...)."""
 
@@ -984,6 +989,8 @@ class Symex:
             return Ext(origin)
         level = len(modpart) - len(modpart.lstrip("."))
         target = modpart.lstrip(".")
+        if level == 0 and target == "string" and obj in _STRING_CONSTANTS:
+            return getattr(__import__("string"), obj)      # from string import ascii_letters, digits, ...
         if level == 0 and not target.startswith(self.model.PKG):
             return Ext(obj)
         if level:
@@ -1574,6 +1581,8 @@ class Symex:
                     return self.class_attr_value(st.value, obj.module, attr)
             return T("attr", sym(obj.short), attr)
         if isinstance(obj, Ext):
+            if obj.name == "string" and attr in _STRING_CONSTANTS:
+                return getattr(__import__("string"), attr)  # string.ascii_letters, ...
             return Ext(f"{obj.name}.{attr}")
         if isinstance(obj, (dict, list, set, str, tuple, frozenset)):
             return ("__bound__", obj, attr)
